@@ -910,7 +910,7 @@ func runBadPeer(c *mon.Case, ctx, tr string, srv, cli mangos.Socket, l mangos.Li
 		c.Nontrivial()
 		return
 	}
-	for i, hdr := range [][]byte{{0, 'X', 'P', 0, 0, 0x10, 0, 0}, {0, 'S', 'P', 0, 0, 0x31, 0, 0}, {0, 'S', 'P'}, {}, {0, 'S', 'P', 1, 0, 0x10, 0, 0}} {
+	for i, hdr := range [][]byte{{0, 'X', 'P', 0, 0, 0x10, 0, 0}, {0, 'S', 'P', 0, 0, 0x31, 0, 0}, {0, 'S', 'P'}, {}, {0, 'S', 'P', 1, 0, 0x10, 0, 0}, {0, 'S', 'P', 0, 0}, {} /* hangs up in an orderly way before its first byte */} {
 		var cn net.Conn
 		dk := mon.Go("raw-connect", func() (interface{}, error) { var e error; cn, e = dial(); return nil, e })
 		if !c.AwaitOrViolate("not-accepting:"+ctx+"/raw-connect-stuck", ctx+": a further raw peer completing its transport-level connect (TLS handshake) while earlier peers stall", dk.Done, mon.AwaitOpts{}) {
@@ -935,11 +935,11 @@ func runBadPeer(c *mon.Case, ctx, tr string, srv, cli mangos.Socket, l mangos.Li
 	}
 	if e, ok := call(c, ctx, "peer.Dial", 0, d.Dial); !ok || e != nil {
 		if ok {
-			c.Violate("not-accepting:"+ctx, "a good peer dialing after five broken ones got %v", e)
+			c.Violate("not-accepting:"+ctx, "a good peer dialing after seven broken ones got %v", e)
 		}
 		return
 	}
-	if !hx.WaitAttached(c, ws, 1, "good peer after broken ones") {
+	if !c.AwaitOrViolate("not-accepting:"+ctx+"/good-peer-never-attached", ctx+": the good peer's connection being accepted after the broken peers", func() bool { return ws.Attached() >= 1 }, mon.AwaitOpts{MaxTimer: 200 * time.Millisecond}) {
 		return
 	}
 	if !exchange(c, ctx, srv, cli) {
